@@ -118,7 +118,7 @@ def generate(ctx):
                 shape = rng.choice(["scalar", "tuple", "dict", "dotted"]) if kind == "reduce" else "dotted"
                 calls = []
                 counter = [0]
-                dotted_variant = rng.randint(0, 1)
+                dotted_variant = rng.randint(0, 2)
 
                 def func(*a, **kw):
                     calls.append((a, dict(kw)))
@@ -133,6 +133,9 @@ def generate(ctx):
                         return {"u": k, "v": f"s{k}"} if k % 2 == 0 else {"v": f"s{k}", "u": k}
                     if dotted_variant == 0:
                         return {"u": k, "out.a": np.arange(k % 3), "out.b": np.arange(k % 3) * 2.0}
+                    if dotted_variant == 2:
+                        # two output nests, the name of one the beginning of the other's: each gets ITS fields only
+                        return {"u": k, "out.a": np.arange(k % 3), "out_b.c": np.arange(k % 3) * 2.0}
                     # plain outputs whose names START like the nested output's name, interleaved with the dotted ones
                     return {"out_n": k + 1, "out.a": np.arange(k % 3), "u": k, "outmax": 2 * k, "out.b": np.arange(k % 3) * 2.0}
 
@@ -153,6 +156,14 @@ def generate(ctx):
                         if dotted_variant == 1:
                             assert [int(v) for v in out["out_n"]] == [k + 1 for k in range(m)] and [int(v) for v in out["outmax"]] == [2 * k for k in range(m)], \
                                 "plain outputs lost or changed"
+                        if dotted_variant == 2:
+                            assert sorted(map(str, out.columns)) == ["out", "out_b", "u"], f"result columns {list(out.columns)}"
+                            assert list(out["out"].nest.fields) == ["a"] and list(out["out_b"].nest.fields) == ["c"], \
+                                f"fields of the two output nests: {list(out['out'].nest.fields)} / {list(out['out_b'].nest.fields)}"
+                            ga, gc = out["out"].array.chunked_array.to_pylist(), out["out_b"].array.chunked_array.to_pylist()
+                            assert [None if g is None else list(g["a"]) for g in ga] == [list(range(k % 3)) for k in range(m)]
+                            assert [None if g is None else list(g["c"]) for g in gc] == [[x * 2.0 for x in range(k % 3)] for k in range(m)]
+                            return True
                         assert sorted(map(str, out.columns)) == sorted(["u", "out"] + (["out_n", "outmax"] if dotted_variant else [])), \
                             f"result columns {list(out.columns)}: not exactly what the function returned"
                         assert "out" in out.nested_columns and list(out["out"].nest.fields) == ["a", "b"], "dotted outputs not packed into a nested column"
@@ -238,7 +249,7 @@ def generate(ctx):
                                    f"{cq_list(cq_parg(j, a_) for j, a_ in enumerate(all_args) if j >= k_obs)})))")
                 else:
                     split_t = "None"
-                outs = {"dict": ["u", "v"], "dotted": (["u", "out.a", "out.b"] if dotted_variant == 0 else ["out_n", "out.a", "u", "outmax", "out.b"])}.get(shape)
+                outs = {"dict": ["u", "v"], "dotted": (["u", "out.a", "out.b"] if dotted_variant == 0 else ["u", "out.a", "out_b.c"] if dotted_variant == 2 else ["out_n", "out.a", "u", "outmax", "out.b"])}.get(shape)
                 obs_cols_t = "None"
                 if outs is not None and res[0] == "ok" and len(nf):
                     out_fr = attempt(lambda: nf.reduce(func, *sel, *extra, **kwargs))
